@@ -14,9 +14,9 @@ use std::collections::BTreeSet;
 
 fn leaves(tier: Tier) -> Vec<E> {
     if tier.thorough() {
-        vec![E::col("a"), E::col("b"), E::int(1), E::str("s"), E::null()]
+        vec![E::col("a"), E::col("b"), E::int(1), E::str("s"), E::str(""), E::null()]
     } else {
-        vec![E::col("a"), E::col("b"), E::int(1), E::str("s")]
+        vec![E::col("a"), E::col("b"), E::int(1), E::str("s"), E::str("")]
     }
 }
 
@@ -290,7 +290,7 @@ fn selects() -> Vec<Sel> {
 fn queries() -> Vec<Q> {
     let c = conds();
     let mut out: Vec<Q> = selects().into_iter().map(Q::Select).collect();
-    let lits = [Val::Int(1), Val::Int(-5), Val::Null, Val::s("s"), Val::s("two words"), Val::Int(i32::MAX)];
+    let lits = [Val::Int(1), Val::Int(-5), Val::Null, Val::s("s"), Val::s(""), Val::s("two words"), Val::Int(i32::MAX)];
     for cond in [None, Some(c[2].clone()), Some(c[3].clone())] {
         out.push(Q::Delete("A".into(), cond.clone()));
         for a in &lits {
